@@ -15,7 +15,37 @@ use std::time::Duration;
 
 const SPEC: &str = "x:\n  type: real\n  init: 1.0\n  scale: 1.0\nn:\n  type: int\n  init: 3\n  scale: 2\n  min: -50\n  max: 50\n";
 
+/// C04 with very many evaluations in flight: 300 at once, all but the first wait for the abort; a time limit of 200 ms
+/// ends the run, and the 300 rejections that follow must not block it (the report channel holds 256 items)
+pub fn wide_case(case: u64) -> J {
+    struct Wide;
+    #[async_trait::async_trait]
+    impl cambrian::meta::AsyncObjectiveFunction for Wide {
+        async fn evaluate(&self, _v: J, mut abort: async_broadcast::Receiver<()>, _seed: u64, id: usize) -> Result<Option<f64>, Error> {
+            if id == 0 { return Ok(Some(1.0)); }
+            let _ = abort.recv().await;
+            Ok(None)
+        }
+    }
+    let (tx, rx) = std::sync::mpsc::channel();
+    let with_files = case % 2 == 0;
+    let dir = crate::proc::build_dir().join("run").join(format!("{}_{}w", std::process::id(), case));
+    let _ = std::fs::remove_dir_all(&dir);
+    std::fs::create_dir_all(&dir).unwrap();
+    let info = DetailedReportingFileInfo { detailed_report_file_path: dir.join("report.csv"), best_seen_file_path: dir.join("best.json") };
+    std::thread::spawn(move || {
+        let spec = spec_util::from_yaml_str(SPEC).unwrap();
+        let cfg = AlgoConfigBuilder::new().num_concurrent(300).build().unwrap();
+        let r = sync_launch::launch_with_async_obj_func(spec, Wide, cfg, vec![TerminationCriterion::TerminateAfter(Duration::from_millis(200))], None, false, if with_files { Some(&info) } else { None });
+        let _ = tx.send(match r { Ok(rep) => json!({"ok": [rep.num_obj_func_eval_completed, rep.num_obj_func_eval_rejected]}), Err(e) => json!({"err": e.to_string()}) });
+    });
+    let ret = rx.recv_timeout(Duration::from_secs(20)).unwrap_or(json!("hang"));
+    let _ = std::fs::remove_dir_all(&dir);
+    json!({"mode": "run", "wide": true, "withFiles": with_files, "ret": ret, "criteria": [{"after": 200}], "nc": 300, "threaded": false, "calls": 0, "maxLive": 0, "csvRows": 0})
+}
+
 pub fn gen_case(rng: &mut Rng, _thorough: bool, case: u64) -> J {
+    if case % 53 == 11 { return wide_case(case); }
     // criteria: always at least one evaluation budget, so that the run ends even if conflicts were wrongly accepted
     let n1 = 1 + rng.below(60) as usize;
     let mut crits: Vec<(J, TerminationCriterion)> = vec![(json!({"numEval": n1}), TerminationCriterion::NumObjFuncEval(n1))];
@@ -48,6 +78,10 @@ pub fn gen_case(rng: &mut Rng, _thorough: bool, case: u64) -> J {
     // evaluations than the report channel holds: the writer only runs when the controller waits for it
     let immediate = !barrier && !zero_budget && crits.len() == 1 && rng.chance(1, 4);
     if immediate { let n = 300 + rng.below(900) as usize; crits = vec![(json!({"numEval": n}), TerminationCriterion::NumObjFuncEval(n))]; }
+    // ... and sometimes with a time limit that must be taken although a finished evaluation is available every time
+    // the controller looks (budget 40 000: about two seconds of work; limit 100 ms)
+    let imm_limit = immediate && rng.chance(1, 3);
+    if imm_limit { crits = vec![(json!({"numEval": 40000}), TerminationCriterion::NumObjFuncEval(40000)), (json!({"after": 100}), TerminationCriterion::TerminateAfter(Duration::from_millis(100)))]; }
     let n1 = if immediate { match crits[0].1 { TerminationCriterion::NumObjFuncEval(n) => n, _ => n1 } } else { n1 };
     // near-target family: the first result is ONE ulp above the target, the eleventh is the target itself
     let near_target = !barrier && !zero_budget && !immediate && rng.chance(1, 12);
@@ -185,7 +219,7 @@ pub fn gen_case(rng: &mut Rng, _thorough: bool, case: u64) -> J {
         std::process::Command::new(std::env::current_exe().unwrap()).arg("signal-child").output().ok()
             .and_then(|o| serde_json::from_slice::<J>(&o.stdout).ok()).unwrap_or(json!("no-output"))
     } else { J::Null };
-    json!({"mode": "run", "nearTarget": near_target, "signalTwin": signal_twin, "nullGuess": null_guess, "stdoutNoise": stdout_noise, "stalledLate": stalled_late, "configs": cfgs, "criteria": crits.iter().map(|c| c.0.clone()).collect::<Vec<_>>(), "nc": nc, "threaded": threaded, "barrier": barrier, "immediate": immediate, "tiny": scale != 1.0, "failAt": fail_at,
+    json!({"mode": "run", "immLimit": imm_limit, "nearTarget": near_target, "signalTwin": signal_twin, "nullGuess": null_guess, "stdoutNoise": stdout_noise, "stalledLate": stalled_late, "configs": cfgs, "criteria": crits.iter().map(|c| c.0.clone()).collect::<Vec<_>>(), "nc": nc, "threaded": threaded, "barrier": barrier, "immediate": immediate, "tiny": scale != 1.0, "failAt": fail_at,
            "calls": calls.load(Ordering::SeqCst), "maxLive": max_live.load(Ordering::SeqCst), "ret": ret,
            "csvRows": rows.len(), "rowObjs": row_objs, "rowInputs": row_inputs, "bestFile": best_file, "bestLate": best_late, "stalledStarted": stalled_started,
            "sampleSize": ss_run, "rowPairs": if immediate { json!(row_pairs) } else { J::Null }, "callPairs": if immediate { json!(call_pairs) } else { J::Null }})
